@@ -693,6 +693,13 @@ def oracle_random_resume(inp) -> Optional[str]:
     k, k2 = inp["k"], inp.get("k2")
     s0 = _mk_random(inp, inp["seed"])
     it0 = iter(s0)
+    disturbed = False
+    if inp.get("disturb") and getattr(s0, "generator", None) is not None:
+        # the sampler's generator is used by someone else (a second sampler sharing it, the loader's base seed...) between
+        # iter() and the first index: the state the iterator reports must still reproduce ITS sequence
+        import torch
+        torch.randint(0, 1000, (inp["disturb"],), generator=s0.generator)
+        disturbed = True
     head = [next(it0) for _ in range(k)]
     sd = copy.deepcopy(it0.state_dict())
     rest = list(it0)
@@ -707,7 +714,7 @@ def oracle_random_resume(inp) -> Optional[str]:
         if got != rest:
             return f"resume at k={k}: remaining {got[:12]}.. (len {len(got)}) != uninterrupted {rest[:12]}.. (len {len(rest)})"
         f1 = list(s1)
-        if f1 != following:
+        if f1 != following and not disturbed:  # (the foreign draws are not part of the iterator's state)
             return f"resume at k={k}: following epoch differs: {f1[:10]} vs {following[:10]}"
         return None
     k2 = min(k2, len(rest))
@@ -722,7 +729,7 @@ def oracle_random_resume(inp) -> Optional[str]:
     if got != rest[k2:]:
         return f"chain k={k},k2={k2}: remaining {got[:12]} (len {len(got)}) != {rest[k2:][:12]} (len {len(rest) - k2})"
     f2 = list(s2)
-    if f2 != following:
+    if f2 != following and not disturbed:
         return f"chain k={k},k2={k2}: following epoch differs: {f2[:10]} vs {following[:10]}"
     return None
 
@@ -1054,6 +1061,10 @@ def run(ctx: Ctx):
             inp = dict(cfg, k=k, seed2=rng.choice([cfg["seed"], cfg["seed"], 77]), pre_draws=rng.choice([0, 0, 1]))
             if rng.random() < 0.35:
                 inp["k2"] = rng.randrange(0, cfg["ns"] - k + 1)
+            if rng.random() < 0.3 and not cfg["repl"] and cfg["ns"] <= cfg["n"]:
+                # (single-permutation epochs only: later chunks are drawn from the generator on demand, so foreign draws in
+                # between legitimately change them)
+                inp["disturb"] = rng.choice([1, 2, 5])
             eval_oracle(ctx, "random_resume", inp)
             ctx.case("ko_random", inp, 0 < k < cfg["ns"])
             ctx.count("ko_random:" + ("chain" if "k2" in inp else "resume"))
